@@ -2,6 +2,7 @@ import FsModel.Wire
 import FsModel.Flow
 import FsModel.OpSeq
 import FsModel.Generated
+import FsModel.ImplCheck
 
 /-! `fsmodel`: reads the harness transcript (scenario lines `C`, implementation-defined inputs
 `I`), runs the executable model and prints its own `O` lines in the harness format. -/
@@ -67,6 +68,7 @@ structure St where
   mask : Nat → Bool := fun _ => false
   isBase : Nat → Bool := fun _ => false
   snaps : List Snap := []
+  implT : Option Fs.ImplCheck.Tables := none   -- tables the implementation reported at the last update
 
 def findInp (c : Call) (key : String) : Option (List String) :=
   (c.inp.find? (fun l => l.head? == some key)).map List.tail
@@ -265,8 +267,41 @@ def callUpdate (c : Call) (st : St) (mstHook : Hook) :
         (fun nm => match r.esnaps.find? (·.1 == nm) with
           | some (_, e) => line ("esnap:" ++ nm) (joinF (idx.map e))
           | none => "O esnap-missing")
-  ({ st with ops := ops, g := r.g, mask := mask, isBase := isBase, snaps := r.snaps },
-   if r.hang then ["O hang"] else outs)
+  -- certificates on the tables the IMPLEMENTATION reported (handed over as `I impl_*`):
+  -- the checkers of `FsModel/ImplCheck.lean`, sound by `Fs.ImplCheck.check*_sound`
+  let splitRows (counts : List Nat) (flat : List Nat) : Nat → List Nat :=
+    let rows : Array (List Nat) := Id.run do
+      let mut out : Array (List Nat) := #[]
+      let mut rest := flat
+      for k in counts do
+        out := out.push (rest.take k)
+        rest := rest.drop k
+      return out
+    fun i => rows.getD i []
+  let nats (key : String) : Option (List Nat) := (findInp c key).map (·.map natOf)
+  let implT : Option Fs.ImplCheck.Tables :=
+    match nats "impl_rcount", nats "impl_recv", nats "impl_dcount", nats "impl_donors", nats "impl_dfs",
+          nats "impl_bfs", nats "impl_levels" with
+    | some rc, some rv, some dc, some dn, some dfs, some bfs, some lv =>
+      let sizes := (lv.zip lv.tail).map (fun p => p.2 - p.1)
+      let lvlRows := splitRows sizes bfs
+      some { n := n, recv := splitRows rc rv, donors := splitRows dc dn, dfs := dfs,
+             bfs := (List.range sizes.length).map lvlRows }
+    | _, _, _, _, _, _, _ => none
+  let certs : List String :=
+    match implT with
+    | none => []
+    | some t =>
+      let c06 := line "cert_c06" (if Fs.ImplCheck.checkC06 t then "1" else "0")
+      let resolved := ops.any (fun o => match o with | .pflood => true | .mst _ _ => true | _ => false)
+      let basic := ops.any (fun o => match o with | .mst _ false => true | _ => false)
+      match resolved, findInp c "impl_elev" with
+      | true, some ev =>
+        let zi := fromList 0.0 (ev.map hexF)
+        [c06, line "cert_c01" (if Fs.ImplCheck.checkFlow S t (nbIdx st.topo) mask isBase zi (!basic) then "1" else "0")]
+      | _, _ => [c06]
+  ({ st with ops := ops, g := r.g, mask := mask, isBase := isBase, snaps := r.snaps, implT := implT },
+   if r.hang then ["O hang"] else outs ++ certs)
 
 def callAcc (pre : String) (c : Call) (n : Nat) (g : Graph F) : List String :=
   let src := fromList 0.0 (((findInp c (pre ++ "src")).getD []).map hexF)
@@ -278,5 +313,17 @@ def callBasins (pre : String) (n : Nat) (g : Graph F) (mask isBase : Nat → Boo
   let b := basins n g mask isBase
   [ line (pre ++ "basins") (joinNats b.labels.toList),
     line (pre ++ "outlets") (joinNats b.outlets), line (pre ++ "pits") (joinNats b.pits) ]
+
+/-- `Fs.ImplCheck.checkBasins` on the labels / outlets / pits the implementation reported for the
+tables it reported at the last update (soundness: `checkBasins_sound`) -/
+def certBasins (c : Call) (st : St) : List String :=
+  match st.implT, findInp c "impl_basins", findInp c "impl_outlets", findInp c "impl_pits" with
+  | some t, some lb, some ol, some pt =>
+    let labels := fromList 0 (lb.map natOf)
+    if (List.range t.n).all (fun i => (t.recv i).length == 1) then
+      [line "cert_c19" (if Fs.ImplCheck.checkBasins t st.mask st.isBase labels (ol.map natOf) (pt.map natOf) maxLabel
+        then "1" else "0")]
+    else []
+  | _, _, _, _ => []
 
 end Fs.Driver
